@@ -1373,12 +1373,31 @@ func ruleRegister(r *Report) {
 			continue
 		}
 		own, target := false, false
+		// the constructor call of the computed column and what it does with the two names
+		var ctor *ssa.Call
+		for _, c := range callsWhere(fn, func(_ ssa.Instruction, cc *ssa.CallCommon) bool {
+			sc := cc.StaticCallee()
+			return sc != nil && (sc.Name() == "newIndex" || sc.Name() == "newTrigger" || sc.Name() == "newSortIndex") && len(cc.Args) >= 2
+		}) {
+			ctor, _ = c.(*ssa.Call)
+		}
+		wrapperOwn, innerTarget := false, false
+		if ctor != nil {
+			wrapperOwn, innerTarget = computedCtorNames(originOf(ctor.Call.StaticCallee()))
+			h.Check(innerTarget, name+"/target-name", r.P.InstrPos(ctor), "the computed column remembers its target's name", "the constructor of the computed column does not keep the target column's name (its second parameter) as the name Column() reports: the drop functions detach it from the wrong list, and it keeps receiving the target's updates after it was dropped")
+		}
 		for _, c := range callsToDeep(fn, false, "(*column.columns).Store") {
 			cc, _, _ := callCommon(c.Inner)
 			// Store(recv, name, main, index...)
 			variadicEmpty := isConstNil(cc.Args[3])
 			if c.same(cc.Args[1], fn.Params[1]) && variadicEmpty {
 				own = true // Store(indexName, index)
+			}
+			if fr, isF := loadedField(cc.Args[1]); isF && variadicEmpty && fr.Struct == "column.column" && fr.Field == "name" && ctor != nil && wrapperOwn {
+				// Store(derived.name, derived): the wrapper's name is the constructor's first parameter
+				if sameExpr(fr.X, cc.Args[2]) && c.same(cc.Args[2], ctor) {
+					own = true
+				}
 			}
 			if c.same(cc.Args[1], fn.Params[2]) && !variadicEmpty {
 				target = true // Store(columnName, column, index)
@@ -2102,4 +2121,27 @@ func paramOfType(fn *ssa.Function, pkgSuffix, typ string) *ssa.Parameter {
 		}
 	}
 	return out
+}
+
+// computedCtorNames: what a constructor of a computed column (newIndex, newTrigger, newSortIndex:
+// (own name, target name, …)) does with the two names — the wrapper made by columnFor is named by
+// the first parameter, and the `name` field of the implementation (what Column() reports) is the
+// second.
+func computedCtorNames(g *ssa.Function) (wrapperOwn, innerTarget bool) {
+	if g == nil || len(g.Params) < 2 {
+		return false, false
+	}
+	allInstrs(g, func(ins ssa.Instruction) {
+		if cc, _, _ := callCommon(ins); cc != nil && calleeIs(cc, "column.columnFor") && len(cc.Args) >= 1 {
+			if sameExpr(cc.Args[0], g.Params[0]) {
+				wrapperOwn = true
+			}
+		}
+		if st, ok := ins.(*ssa.Store); ok {
+			if fr, isF := fieldOf(st.Addr); isF && fr.Field == "name" && strings.HasPrefix(fr.Struct, "column.column") {
+				innerTarget = sameExpr(st.Val, g.Params[1])
+			}
+		}
+	})
+	return
 }
